@@ -563,6 +563,7 @@ func (t *Teamserver) handleRequest(id string) {
 		if err != nil {
 			logger.Error("Failed to close client (" + id + ") socket")
 		}
+		t.RemoveClient(id)
 		return
 	} else {
 
